@@ -696,6 +696,9 @@ class EvalFunc:
                 sym_table_idx = 1
             else:
                 sym_table_idx = 0
+                if ast_ctx.curr_func and var_name in ast_ctx.curr_func.global_names:
+                    # declared global in the enclosing function, so it is global here too
+                    continue
             for sym_table in reversed(ast_ctx.sym_table_stack[sym_table_idx:] + [ast_ctx.sym_table]):
                 if var_name in sym_table and isinstance(sym_table[var_name], EvalLocalVar):
                     self.local_sym_table[var_name] = sym_table[var_name]
